@@ -89,9 +89,16 @@ MODEL_CFGS = {
     # external catch-up interleaved with gossip
     "catchup": (dict(Val=vlib.tla_set(["a"]), MaxVer=2, Enable=vlib.tla_set(["api", "gc", "catchup"])),
                 {"nodes": ["n1", "n2"], "grace": 2, "strip_hb": True}, False),
+    # a datagram delayed across a tombstone collection and a size-truncated reset (three keys, one entry per
+    # delta, two datagrams in flight): 2.3 M states, so only the deliveries that reach a mid-reset copy are
+    # exported and replayed (EmitFocus); every state is still checked against every formula
+    "two_delay": (dict(Key=vlib.tla_set(["k1", "k2", "k3"]), Val=vlib.tla_set(["a"]), MaxVer=4, MaxInflight=2,
+                       Budget=1, Enable=vlib.tla_set(["api", "gc"])),
+                  {"nodes": ["n1", "n2"], "grace": 2, "strip_hb": True, "val_size": 50000}, False, [],
+                  {"emit": "EmitFocus", "report": 60, "corpus": True}),
 }
-TIER_MODELS = {"quick": ["two", "two_mtu", "member", "clusters", "catchup"],
-               "thorough": ["two", "two_mtu", "two_ttl", "three", "member_l", "clusters", "catchup"]}
+TIER_MODELS = {"quick": ["two", "two_mtu", "member", "clusters", "catchup", "two_delay"],
+               "thorough": ["two", "two_mtu", "two_ttl", "three", "member_l", "clusters", "catchup", "two_delay"]}
 
 FD_SMALL = {"phi": 2.0, "window": 3, "max_interval": 4, "initial": 2, "dead_grace": 6}
 FD_CONST = {"PhiN": 2, "PhiD": 1, "Window": 3, "MaxInterval": 4, "Prior": 2, "DeadGrace": 6}
@@ -140,6 +147,13 @@ def scenarios(tier, seed):
                    "seed": seed * 1000 + 6, "traces": 80 * k, "len": 120, "nvals": 2,
                    "w_live": 25, "w_hb": 8, "w_ttl": 0},
          dict(FD_CONST, Grace=1000, PredKey='"k1"', PredVal='"v1"'), True),
+        # lazy evaluator: liveness is evaluated rarely, so several members change state in ONE evaluation
+        # (one dies while another becomes live); only n1 writes, so the others have equal max versions
+        ("s4lazy", {"nodes": ["n1", "n2", "n3", "n4"], "writers": ["n1"], "grace": 1000, "fd": FD_SMALL,
+                    "keys": ["k1"], "advances": [1, 2, 3, 4],
+                    "seed": seed * 1000 + 12, "traces": 80 * k, "len": 160, "nvals": 2,
+                    "w_live": 4, "w_hb": 12, "w_sync": 25, "w_cut": 5, "w_ttl": 0, "w_del": 0},
+         dict(FD_CONST, Grace=1000), True),
         # five nodes in four clusters whose ids are prefixes / case variants of each other
         ("s5cl", {"nodes": ["n1", "n2", "n3", "n4", "n5"], "clusters": CLUSTERS5, "grace": 3,
                   "fd": FD_SMALL, "keys": ["k1", "k2"], "advances": [1, 2, 3],
@@ -199,6 +213,57 @@ def witness_scenarios():
             h["pred"] = pred
             c.update(PredKey=json.dumps(pred[0]), PredVal=json.dumps(pred[1]))
         out.append(("w_live_reset" + ("_" + pred[0] if pred else ""), h, c, st, False))
+    return out
+
+
+def schedule_traces(tier, seed):
+    """Membership schedules: observer n1 and peers n2..n4.  In every epoch each peer is either talking
+    (one complete handshake with n1) or silent; epochs end with a clock advance and, in some epochs only,
+    an evaluation at n1 -- so several members change state in one evaluation (one dies while another
+    becomes live, with equal or different max versions), dead members are removed and come back.
+    Returns [(name, hcfg, constants, [steps, ...], nogc)]."""
+    import random
+    rnd = random.Random(seed * 7919 + 5)
+    out = []
+    n = 120 if tier == "quick" else 1500
+    for pred in (None, ["k1", "v1"]):
+        h = {"nodes": ["n1", "n2", "n3", "n4"], "grace": 1000, "fd": FD_SMALL}
+        c = dict(FD_CONST, Grace=1000)
+        if pred:
+            h["pred"] = pred
+            c.update(PredKey=json.dumps(pred[0]), PredVal=json.dumps(pred[1]))
+        behaviours = []
+        for _ in range(n):
+            st = []
+            peers = ["n2", "n3", "n4"][:rnd.choice([2, 3])]
+            for p in peers:        # 0, 1 or 2 writes each: equal or different max versions
+                for j in range(rnd.choice([0, 1, 1, 2])):
+                    st.append({"a": "Set", "n": p, "k": "k1" if j == 0 else "k2",
+                               "v": rnd.choice(["v1", "v1", "v2"])})
+            epochs = rnd.randint(5, 9)
+            # each peer: an on/off pattern with few switches (a member stays up or down for a while)
+            talk = {}
+            for p in peers:
+                on = rnd.random() < 0.6
+                pat = []
+                for e in range(epochs):
+                    if rnd.random() < 0.3:
+                        on = not on
+                    pat.append(on)
+                talk[p] = pat
+            for e in range(epochs):
+                order = [p for p in peers if talk[p][e]]
+                rnd.shuffle(order)
+                for p in order:
+                    if rnd.random() < 0.5:
+                        _hs(st, p, "n1")
+                    else:
+                        _hs(st, "n1", p)
+                st.append({"a": "Advance", "d": rnd.choice([1, 1, 2, 3])})
+                if rnd.random() < 0.45 or e == epochs - 1:
+                    st.append({"a": "Liveness", "n": "n1"})
+            behaviours.append(st)
+        out.append(("sched" + ("_pred" if pred else ""), h, c, behaviours, True))
     return out
 
 
@@ -406,8 +471,18 @@ def family_key(tier, seed):
                 h.update(fh.read())
     with open(__file__, "rb") as fh:
         h.update(fh.read())
-    h.update(f"{tier}:{seed}".encode())
+    h.update(f"{tier}:{seed}:{os.environ.get('VERIF_DEV_MODELS', '')}:{os.environ.get('VERIF_DEV_SCEN', '')}".encode())
     return h.hexdigest()[:20]
+
+
+def _dev_filter(env, names):
+    """Development aid: VERIF_DEV_MODELS / VERIF_DEV_SCEN (comma lists, "-" for none) restrict a run to
+    some model configurations / driver scenarios.  Never set by registered commands."""
+    v = os.environ.get(env)
+    if v is None or v == "":
+        return lambda n: True
+    keep = set(v.split(","))
+    return lambda n: n in keep
 
 
 def family_run(tier, seed):
@@ -422,16 +497,21 @@ def family_run(tier, seed):
            "divergent": [], "samples": [], "cached": False, "coverage_hits": {}}
 
     # ---------------- spec -> code
-    for name in TIER_MODELS[tier]:
+    _mf = _dev_filter("VERIF_DEV_MODELS", None)
+    _dev_models = os.environ.get("VERIF_DEV_MODELS", "")
+    for name in ([n for n in MODEL_CFGS if _mf(n)] if _dev_models else TIER_MODELS[tier]):
         over, hcfg, nogc = MODEL_CFGS[name][:3]
         extra_inv = MODEL_CFGS[name][3] if len(MODEL_CFGS[name]) > 3 else []
+        mopts = MODEL_CFGS[name][4] if len(MODEL_CFGS[name]) > 4 else {}
         c = dict(BASE)
         c.update(over)
         cfgp = vlib.write_cfg(tmp(f"model_{name}.cfg"), "Spec", c, invariants=ALL_INV + MODEL_ONLY_INV + extra_inv,
                               properties=ALL_PROPS + (["C13_Exact"] if nogc else []),
-                              view="View", constraint="Bounded", action_constraint="EmitEdge")
+                              view="View", constraint="Bounded",
+                              action_constraint=mopts.get("emit", "EmitEdge"))
         m = vlib.cached_model_run("gossip_" + name, "MC_Gossip.tla", cfgp, FILES[:4], workers=6,
-                                  timeout=3400, heap="12g")
+                                  timeout=3400, heap="12g",
+                                  corpus=bool(mopts.get("corpus")) and tier == "quick")
         if not m["ok"]:
             raise vlib.ToolError(f"Gossip model {name}: formula fails on the MODEL (specification "
                                  "issue, not a verdict on the code): " + "; ".join(m["errors"][:2]))
@@ -439,15 +519,17 @@ def family_run(tier, seed):
         fam["transitions"] += m["generated"]
         outs, fed = vlib.pipe_edges_to(m["edges_file"],
                                        [vlib.harness_bin("gossip"), "replay",
-                                        json.dumps(dict(hcfg, max_report=4))], procs=6)
+                                        json.dumps(dict(hcfg, max_report=mopts.get("report", 4)))], procs=6)
         summ = [o for o in outs if o.get("summary")]
-        div = [o for o in outs if o.get("diverged")]
+        div = [o for o in outs if o.get("diverged") is True]
         nb = sum(s["behaviours"] for s in summ)
         nd = sum(s["diverged"] for s in summ)
         fam["conform"] += nb - nd
         fam["models"][name] = {"distinct": m["distinct"], "generated": m["generated"],
                                "behaviours_replayed": nb, "diverged": nd,
-                               "steps": sum(s["steps"] for s in summ), "cached_model": m.get("cached")}
+                               "steps": sum(s["steps"] for s in summ), "cached_model": m.get("cached"),
+                               "export": mopts.get("emit", "EmitEdge"),
+                               "from_committed_corpus": m.get("from_committed_corpus", False)}
         if len(fam["samples"]) < 2:
             fam["samples"] += vlib.sample_edges(m["edges_file"], 1)
         over_t = {k: v for k, v in over.items() if k in ("Grace", "PhiN", "PhiD", "Window", "MaxInterval",
@@ -476,8 +558,21 @@ def family_run(tier, seed):
                                              "hcfg": {k: v for k, v in hcfg.items() if k != "strip_hb"},
                                              "steps": steps, "nogc": nogc,
                                              "note": f"replay of model {name} diverged"})
+            # further divergent replays (focused exports report many) go to the judges without the
+            # conformance double check: being judged needs no non-conformance, only a real execution
+            if rej:
+                for o in div[8:]:
+                    lines = ['{"a":"Reset"}\n'] + [json.dumps(strip(dict(e, i=i))) + "\n"
+                                                  for i, e in enumerate(o["events"])
+                                                  if e.get("a") not in ("Nop", "Lose") and not e.get("skipped")]
+                    fam["divergent"].append({"lines": lines, "over": jsonable(over_t),
+                                             "hcfg": {k: v for k, v in hcfg.items() if k != "strip_hb"},
+                                             "steps": o["steps"], "nogc": nogc,
+                                             "note": f"replay of model {name} diverged (not trace-validated)"})
 
     # ---------------- code -> spec (scenarios are independent: run them concurrently)
+    _sf = _dev_filter("VERIF_DEV_SCEN", None)
+
     def one_scenario(sc):
         sname, dcfg, over, nogc = sc[:4]
         excluded = sc[4] if len(sc) > 4 else []
@@ -498,7 +593,7 @@ def family_run(tier, seed):
 
     from concurrent.futures import ThreadPoolExecutor
     with ThreadPoolExecutor(max_workers=5) as ex:
-        results = list(ex.map(one_scenario, scenarios(tier, seed)))
+        results = list(ex.map(one_scenario, [sc for sc in scenarios(tier, seed) if _sf(sc[0])]))
     for sname, stats, div, hits, sample in results:
         fam["conform"] += stats["accepted"]
         fam["drivers"][sname] = stats
@@ -518,6 +613,21 @@ def family_run(tier, seed):
             fam["divergent"].append({"lines": lines, "over": jsonable(over), "hcfg": hcfg, "steps": steps,
                                      "nogc": nogc, "excluded": [],
                                      "note": f"witness {wname}: rejected at event {at}: {errs[:200]}"})
+        os.remove(tpath)
+    # ---------------- membership schedules (generated): swaps, simultaneous changes, removal and return
+    for (wname, hcfg, over, behaviours, nogc) in (schedule_traces(tier, seed) if _sf("sched") else []):
+        tpath = tmp(f"sched_{wname}_{os.getpid()}.ndjson")
+        run_harness(["trace", json.dumps(hcfg)],
+                    stdin_text="".join(json.dumps({"steps": b}) + "\n" for b in behaviours), out_path=tpath)
+        total, nev, acc, rej = validate_batch(tpath, trace_constants(over), f"{wname}_{os.getpid()}", nogc)
+        fam["conform"] += acc
+        fam["drivers"][wname] = {"traces": total, "events": nev, "accepted": acc, "rejected": len(rej)}
+        for k_, v_ in coverage_hits(tpath).items():
+            fam["coverage_hits"][k_] = fam["coverage_hits"].get(k_, 0) + v_
+        for (lines, at, errs) in rej:
+            fam["divergent"].append({"lines": lines, "over": jsonable(over), "hcfg": hcfg,
+                                     "steps": steps_of_events(lines), "nogc": nogc, "excluded": [],
+                                     "note": f"membership schedule {wname}: rejected at event {at}: {errs[:200]}"})
         os.remove(tpath)
     # ---------------- server level: several real spawn_chitchat loops on a controlled transport
     for (k, ntr, nsteps) in ([(3, 12, 120), (2, 8, 100)] if tier == "quick" else [(3, 150, 150), (2, 60, 120), (4, 40, 150)]):
@@ -548,11 +658,23 @@ def coverage_hits(tpath):
 
     def inc(k, n=1):
         c[k] = c.get(k, 0) + n
+    prev_live = {}
     with open(tpath) as fh:
         for line in fh:
             e = json.loads(line)
             inc("events")
+            if e.get("a") == "Reset":
+                prev_live = {}
             p = e.get("post")
+            if p and e.get("n"):
+                lv = set(p["live"]) if p["live"] else set()
+                old = prev_live.get(e["n"])
+                if e["a"] == "Liveness" and old is not None:
+                    if lv != old:
+                        inc("evaluations_changing_live_set")
+                    if (old - lv) and (lv - old):
+                        inc("evaluations_swapping_members")
+                prev_live[e["n"]] = lv
             if p:
                 if p["dead"]:
                     inc("states_with_dead_member")
